@@ -453,7 +453,7 @@ class VMTunnel(object):
 
         if left_local["type"] == "nic":
             right_remote["type"] = "custom"
-            right_remote["nic"] = left_local["nic"]
+            right_remote["nic"] = left_local.get("nic", "lan_nic")
         elif left_local["type"] == "internetip":
             right_remote["type"] = "externalip"
         if left_remote["type"] == "custom":
@@ -461,17 +461,17 @@ class VMTunnel(object):
                 right_local["type"] = "custom"
             else:
                 right_local["type"] = "nic"
-                right_local["nic"] = left_remote["nic"]
+                right_local["nic"] = left_remote.get("nic", "lan_nic")
         elif left_remote["type"] == "externalip":
             right_local["type"] = "internetip"
 
         if left_peer["type"] == "dynip":
             right_peer["type"] = "ip"
-            right_peer["nic"] = left_peer["nic"]
+            right_peer["nic"] = left_peer.get("nic", "internet_nic")
         # road warriors are always assumed to be on the left side
         elif left_peer["type"] == "ip":
             right_peer["type"] = "ip"
-            right_peer["nic"] = left_peer["nic"]
+            right_peer["nic"] = left_peer.get("nic", "internet_nic")
 
         return right_local, right_remote, right_peer
 
